@@ -6,6 +6,8 @@ TECH = "contract-based deductive verification: VCs generated from the typed Go A
 claims = {
  "C03": ("frame obligation 'deterministic' over every function reachable from the obfuscation pipeline (no global randomness, clock or map iteration order can reach the output) plus SMT determinism (self-composition) of the name hash",
          "necessary conditions: the Go toolchain's own determinism, process scheduling and the seeding in transformCompile are outside; ten map-order sites are listed known findings; three order assumptions are listed in trusted_base"),
+ "C05": ("contracts on the encoder/decoder building blocks: evalOperator against a bit-vector spec, the reversed operator emitted with the same operands, the lemma that the reversed operator undoes the encoder for all bytes, index type wide enough for every position, even swap count covering the data, random index/operator ranges, obfuscator selection window",
+         "necessary conditions only: the round trip of each of the five obfuscators through the emitted loops and closures needs a semantics of emitted Go statements, which is not built; a labelled bounded stand-in (real code executed on generated programs) may accompany the check but is never counted as proved"),
  "C06": ("functional contracts of the cache key ingredients: addGarbleToHash / appendFlags hash every build-affecting garble input (spec from the statement), cache IDs use distinct suffixes, linker stamp written == stamp checked",
          "cmd/go's own action IDs and what it does with them are assumed; the -ldflags/-literals staleness (DESIGN 12.1) is outside the functions under contract so far"),
  "C07": ("miss-on-error contracts for every garble cache reader (loadPkgCache, computePkgCache, loadGoAsmNames, debugdir readers) and the linker reuse condition, via ghost typestate hooks on the real I/O call sites",
